@@ -80,6 +80,7 @@ type Scenario struct {
 	Vals      bool         `json:"vals,omitempty"`    // compare final memory with emulation
 	NoEmu     bool         `json:"noemu,omitempty"`
 	Sampled   bool         `json:"sampled,omitempty"` // wavefront sampling on, prediction stable: handleWfCompletionEvent path
+	VLimit    int          `json:"vlimit,omitempty"`  // > 0: ComputeUnit.InFlightVectorMemAccessLimit (public field; the builder sets 512)
 	Sys       string       `json:"sys,omitempty"`     // "" component level; "r9nano": system level
 	Bench     string       `json:"bench,omitempty"`   // system level: a shipped benchmark instead of generated kernels
 	BenchArgs []int        `json:"benchargs,omitempty"`
@@ -489,6 +490,9 @@ func (r *runner) runTiming(ce *caseEnv, idx int, ref *memImage, paths map[int][]
 	u := cu.MakeBuilder().WithEngine(eng).WithFreq(1 * sim.GHz).WithInstMem(instMem).WithScalarMem(scalarMem).
 		WithVectorMemModules(&mem.SinglePortMapper{Port: "Env.VectorMem"}).
 		WithRegisterScoreboard(sc.SB).Build("CU")
+	if sc.VLimit > 0 {
+		u.InFlightVectorMemAccessLimit = sc.VLimit
+	}
 	conn := ab.NewConn("Conn")
 	for _, p := range []sim.Port{u.ToACE, u.ToCP, u.ToInstMem, u.ToScalarMem, u.ToVectorMem} {
 		conn.PlugIn(p)
